@@ -26,6 +26,10 @@ PlanOf(k) ==
     [] PlanId = 4 -> [pos |-> (k * W) % 65536, tag |-> 1]                          \* one home group per key
     [] PlanId = 5 -> [pos |-> (k % 4) * 5, tag |-> k % 2]
     [] PlanId = 6 -> [pos |-> IF k < NK \div 2 THEN W - 3 ELSE 2 * W - 3, tag |-> 5] \* straddles group boundaries
+    \* clusters that start in the last groups of the table and run over its end into the first group
+    [] PlanId = 8 -> [pos |-> IF k % 3 = 0 THEN 65536 - W - 2 ELSE IF k % 3 = 1 THEN 65536 - 3 ELSE 65536 - (W \div 2), tag |-> k % 2]
+    \* overlapping short clusters: a probe usually meets real EMPTY bytes before tombstones
+    [] PlanId = 9 -> [pos |-> (k * 7) % (4 * W), tag |-> k % 4]
     [] OTHER -> [pos |-> k, tag |-> k % 128]
 hp == [k \in Keys |-> PlanOf(k)]
 
@@ -57,7 +61,15 @@ Sig(e, t0, t1) ==
       goneIdx == FullIdx(t0) \ FullIdx(t1)
       er == IF grow = "same" /\ Cardinality(goneIdx) = 1
             THEN (IF t1.ctrl[CHOOSE i \in goneIdx : TRUE] = DELETED THEN "erase-del" ELSE "erase-empty") ELSE "-"
-  IN <<e.op, Cl(pi[1]), pi[2], pi[3], grow, moved, swapped, slot, er, Regime(t0), t0.gl = 0, NumDel(t0) > 0>>
+      \* erase in the first group of a multi-group table whose last bucket is occupied: the EMPTY/DELETED rule looks
+      \* at the group that precedes the slot cyclically (the tail of the bucket array)
+      eFirst == er # "-" /\ t0.mask + 1 > W /\ (CHOOSE i \in goneIdx : TRUE) < W /\ t0.ctrl[t0.mask] # EMPTY
+      \* an absent key is inserted: kind of the slot found BEFORE any reservation, and what an in-place rehash made of it
+      ins == k >= 0 /\ t1.items = t0.items + 1 /\ t0.mask # 0
+      slot0 == IF ins THEN FindInsertSlot(t0.ctrl, t0.mask, hp[k]) ELSE 0
+      s0 == IF ~ins THEN "-" ELSE IF t0.ctrl[slot0] = EMPTY THEN "E" ELSE "D"
+      stale == ins /\ grow = "inplace" /\ slot0 \in FullIdx(t1) /\ EK(t1.data[slot0]) # k
+  IN <<e.op, Cl(pi[1]), pi[2], pi[3], grow, moved, swapped, slot, er, Regime(t0), t0.gl = 0, NumDel(t0) > 0, eFirst, s0, stale>>
 
 Ev(op, k, v, n, ks, r) ==
   [op |-> op, t |-> 1, u |-> 0, k |-> k, id |-> 1, v |-> v, vid |-> 0, n |-> n, j |-> -1, ks |-> ks, r |-> r, y |-> <<>>, pn |-> ""]
